@@ -37,6 +37,13 @@ class VReal(V):
         self.t = t; self.special = special
 
 
+class VFP(V):
+    """an IEEE-754 binary64 value treated bit-precisely (z3 FloatingPoint theory): every double incl. NaN / +-inf.
+    Only comparisons are supported (DESIGN section 3, treatment 2)."""
+    k = 'fp64'
+    def __init__(self, t): self.t = t
+
+
 class VNone(V):
     k = 'none'
     def __repr__(self): return '<none>'
@@ -128,6 +135,7 @@ class VExc(V):
 def fresh_of(shape, name='h'):
     if shape == 'int': return VInt(fresh(I, name))
     if shape == 'real': return VReal(fresh(R, name))
+    if shape == 'fp64': return VFP(z3.Const(f'{name}!{next(_fresh)}', z3.Float64()))
     if shape == 'bool': return VBool(fresh(B, name))
     if shape == 'none': return NONE
     if shape == 'str': return VStr(code=fresh(I, name))
